@@ -124,6 +124,9 @@ func genCaseC07(t *rapid.T) *c07Case {
 				break
 			}
 		}
+		if rapid.IntRange(0, 2).Draw(t, "fragmentNameOnItsOwnLine") == 0 {
+			c.Layout.FragSplit = rapid.IntRange(1, 2).Draw(t, "fragSplit")
+		}
 	case "malformed":
 		text := d.Render(c.Layout).Text
 		bs := []byte(text)
@@ -332,7 +335,8 @@ func envelope(res map[string]interface{}, text string) (msgs []string) {
 					name := strings.TrimSpace(msg[strings.LastIndex(msg, " for fragment ")+len(" for fragment "):])
 					want := 0
 					for li, ln := range lines {
-						if k := strings.Index(ln, "fragment "+name+" on "); k >= 0 && !strings.Contains(ln[:k], "#") {
+						split := li > 0 && strings.HasPrefix(strings.TrimSpace(ln), name+" on ") && strings.HasPrefix(strings.TrimSpace(lines[li-1]), "fragment")
+						if k := strings.Index(ln, "fragment "+name+" on "); (k >= 0 && !strings.Contains(ln[:k], "#")) || split {
 							if want != 0 {
 								want = -1 // written twice: ambiguous
 								break
